@@ -6,11 +6,6 @@ import Lemmas.Rev.Loaded
 namespace Lemmas.Rev
 open Model.Rev Spec.Rev
 
-theorem reach_mono {s1 s2 : Id → List Id} (h : ∀ x, ∀ p ∈ s1 x, p ∈ s2 x) {x y : Id} (hr : Reach s1 x y) : Reach s2 x y := by
-  induction hr with
-  | refl _ => exact Reach.refl _
-  | step hs _ ih => exact Reach.step (h _ _ hs) ih
-
 theorem reach_rank_le' {succ : Id → List Id} {rank : Id → Nat} (hr : ∀ i, ∀ p ∈ succ i, rank p < rank i)
     {x y : Id} (h : Reach succ x y) : rank y ≤ rank x := by
   induction h with
